@@ -76,7 +76,15 @@ func vfRoutingMicroScripts(property string) []vfMicroScript {
 			{IDs: []int64{13}, Tgt: []int{2}, High: 14},
 			{IDs: []int64{14}, Tgt: []int{2}, High: 15},
 		}}, InitHigh: 5, MaxWM: 1, MaxRepeat: 1, InOrder: true}
+		duo := &vfRouteScenario{Name: "micro-duo", NS: 1, NT: 2, Scripts: [][]vfBatch{{
+			{IDs: []int64{10}, Tgt: []int{1}, High: 11},
+			{IDs: []int64{11}, Tgt: []int{2}, High: 12},
+		}}, InitHigh: 5, MaxWM: 1, MaxRepeat: 1, InOrder: true, Proxies: 2, PlaceT: []int{0, 1}, PlaceS: []int{0}}
 		return []vfMicroScript{
+			// two proxy instances (source and target 1 on n1, target 2 on n2): a watermark-only batch goes to the local
+			// target stream and, over the intra-proxy stream, to the peer instance
+			{Name: "two-proxies-watermark", Scenario: duo, Setup: []string{"openT:1", "openT:2", "openS:1", "emit:1", "emit:1"},
+				Steps: []string{"wm:1", "tick:2"}},
 			// a watermark-only batch is broadcast to two target streams whose proxy id counters differ (3 tasks vs 1),
 			// then one more task for the second target: each stream must carry watermarks of its own id space
 			{Name: "broadcast-watermark-asymmetric-targets", Scenario: asym, Setup: []string{"openT:1", "openT:2", "openS:1", "emit:1", "emit:1", "emit:1", "emit:1"},
@@ -146,6 +154,7 @@ func vfRoutingMicroBody(ms vfMicroScript, property string) func(s *vrt.Sched) (s
 				return "harness/setup", err.Error(), ""
 			}
 			s.Run()
+			e.syncInstances(func() { s.Run() })
 		}
 		s.NoBranch = false
 		setupPoints := len(s.Points)
@@ -207,6 +216,9 @@ func vfRoutingMicroBody(ms vfMicroScript, property string) func(s *vrt.Sched) (s
 			if len(left) > 0 {
 				e.violate("C08", "worker-outlives-its-stream", fmt.Sprintf("6 s (virtual) after their stream's handler returned these workers are still running: %v", left))
 			}
+		}
+		if property != "C08" && property != "C04" && e.faults == 0 {
+			e.checkSettled(synctest.Wait)
 		}
 		rounds := e.closingPhase(synctest.Wait, 6)
 		e.checkEnd(rounds)
@@ -350,6 +362,45 @@ func (e *vfRouteExec) checkWatermarkReplay() {
 		}
 		if !got {
 			e.violate("C08", "watermark-replay-missed-the-newest-incarnation", fmt.Sprintf("target shard %d reconnected (stream #%d is its newest live stream) while the source's receiver held a last watermark, but that stream never received a watermark-only message (older streams: %d)", t.idx, len(t.incoming)-1, len(t.incoming)-1))
+		}
+	}
+}
+
+// checkSettled (C03, micro level): without the source sending anything new, every connected target completes and
+// acknowledges what it has received; once that is quiescent, a source whose last message was a watermark-only batch
+// that reached every target must have been acknowledged up to that watermark - the acknowledgement may not depend
+// on a later repetition of the watermark.
+func (e *vfRouteExec) checkSettled(wait func()) {
+	for _, t := range e.tgt {
+		ts := t.cur()
+		if ts == nil || ts.broken || ts.returned {
+			return
+		}
+	}
+	for round := 0; round < 2; round++ {
+		for _, t := range e.tgt {
+			ts := t.cur()
+			for i := range ts.queue {
+				ts.queue[i].done = true
+			}
+			if _, ok := ts.peekLow(); ok {
+				e.tick(t)
+				wait()
+			}
+		}
+	}
+	for _, s := range e.src {
+		p := s.pull()
+		if p == nil || !p.alive() || !s.lastWasWM {
+			continue
+		}
+		// every target must have seen a message after the last scripted batch (the watermark-only one)
+		last := int64(-1)
+		if n := len(p.acks); n > 0 {
+			last = p.acks[n-1]
+		}
+		if last != s.curHigh {
+			e.violate("C03", "ack-incomplete-although-every-target-confirmed-everything", fmt.Sprintf("source %d sent its watermark %d to every target, every target has completed and acknowledged everything it received, nothing is in flight, yet the last acknowledgement the source received is %d (acks %v)", s.idx, s.curHigh, last, p.acks))
 		}
 	}
 }
